@@ -27,6 +27,7 @@ package main
 import (
 	"fmt"
 	"math"
+	"os"
 	"sort"
 	"strconv"
 	"strings"
@@ -461,6 +462,9 @@ func (cx *c03ctx) exec(line string) {
 	if len(w) == 0 || strings.HasPrefix(w[0], "#") {
 		return
 	}
+	if os.Getenv("C03_DEBUG") == "2" {
+		fmt.Fprintf(os.Stderr, "c03: %.120s\n", line)
+	}
 	emit := func(final, res string) int {
 		cx.lines = append(cx.lines, final)
 		ln := r.Op(final, res)
@@ -703,8 +707,8 @@ func (cx *c03ctx) exec(line string) {
 					}
 				}
 			}
-			cx.merges = append(cx.merges, q)
 			r.Stat("merge:" + cx.classify(q))
+			cx.merges = append(cx.merges, q)
 		} else {
 			_, rep := c03dumpMerges(res)
 			cx.frameMerges(ln, ps, before, after, rep, "unm")
@@ -913,6 +917,19 @@ func (cx *c03ctx) checkReported(ln int, rep [][4]int, unmerged *[4]int) {
 		}
 		return
 	}
+	// two overlapping ranges normalise to exactly their bounding box (the one-pass defect needs three)
+	if len(cx.merges) == 2 && c03intersect(cx.merges[0], cx.merges[1]) {
+		a, b := cx.merges[0], cx.merges[1]
+		bb := [4]int{min(a[0], b[0]), min(a[1], b[1]), max(a[2], b[2]), max(a[3], b[3])}
+		if len(rep) != 1 || rep[0] != bb {
+			var got []string
+			for _, q := range rep {
+				got = append(got, c03rectRef(q))
+			}
+			r.Fail("merge:pair-not-bounding-box", fmt.Sprintf("overlapping ranges %s and %s normalise to %v, want %s", c03rectRef(a), c03rectRef(b), got, c03rectRef(bb)), ln, cx.replay())
+		}
+		return
+	}
 	for _, old := range cx.merges {
 		covered := false
 		for _, q := range rep {
@@ -997,9 +1014,10 @@ func (g *c03gen) pos(mode int) (int, int) {
 			return rng.Range(1, 3), 1048576
 		case k == 1:
 			return rng.Range(1, 2), rng.Range(1048574, 1048576)
-		case k == 2 && len(g.known) == 0 && rng.Chance(30):
-			return 16384, 1048576
 		}
+		// XFD1048576 itself is only written in a witness transcript on a fresh sheet: prepareSheetXML gives every
+		// appended row the capacity of the last row's cell slice, so a write in a far column followed by a write in
+		// a far row asks for rows x columns cell structs (terabytes) — the harness would be killed.
 		return rng.Range(1, 4), rng.Range(1, 4)
 	}
 	// just inside / outside an existing range
@@ -1345,7 +1363,10 @@ func (g *c03gen) transcript(mode, nOps int) {
 var c03witnesses = [][]string{
 	{"new 1", "mrg C1 C3", "mrg A3 A4", "mrg A4 D4", "gm"},                                   // one-pass normalisation leaves an overlap
 	{"new 1", "mrg A1 C3", "mrg D2 E4", "mrg B4 D5", "gm"},                                   // ... or drops a range
-	{"new 1", "mrg B2 D2", "mrg C1 C3", "gm", "unm C1 C1", "gm"},                             // cross
+	{"new 1", "mrg B2 D2", "mrg C1 C3", "gm", "unm C1 C1", "gm"},
+	{"new 1", "mrg B2 C3", "mrg C3 E5", "gm"},                                                // a pair normalises to its bounding box
+	{"new 1", "mrg C3 E5", "mrg B2 C3", "gm"},
+	{"new 1", "mrg B4 C5", "mrg C2 E4", "gm"},                             // cross
 	{"new 1", "mrg A2 C2", "unm B1 B3", "gm"},                                                // unmerge by a crossing range
 	{"new 2", "set str A1 sst S" + hx("anchor") + " ~", "set int B2 tv ~ " + hx("7"), "mrg A1 B2", "get B2", "set str b2 sst S" + hx("via b2") + " ~", "get A1", "obs 1 1 3 3"},
 	{"new 1", "mrg A1 B2", "TIME B2", "gsty A1", "gsty B2"},                                  // date style lands on the raw cell
@@ -1429,7 +1450,15 @@ func runC03(r *Run, rng *Rng, replay string) {
 		if mode == 2 {
 			n = 8
 		}
+		t0 := time.Now()
+		if os.Getenv("C03_DEBUG") != "" {
+			fmt.Fprintf(os.Stderr, "c03: transcript %d mode %d line %d\n", t, mode, r.N)
+		}
 		g.transcript(mode, n)
+		if d := time.Since(t0); d > 5*time.Second {
+			r.Notes = append(r.Notes, fmt.Sprintf("slow transcript %d (mode %d): %.1fs", t, mode, d.Seconds()))
+			fmt.Fprintf(os.Stderr, "c03: slow transcript %d (mode %d): %.1fs\n", t, mode, d.Seconds())
+		}
 	}
 	// malformed stream
 	cx.exec("new 2")
